@@ -117,10 +117,30 @@ pub fn run(ctx: &Ctx) -> usize {
   // Julian dates on a millisecond grid around every rounding / carry boundary
   let fracs: [i64; 8] = [0, 250, 499, 501, 750, 999, 502, 498];
   let jsecs: [i64; 9] = [0, 59, 3599, 43199, 43200, 82799, 86339, 86398, 86399];
-  for round in 0..(3000 * scale) {
-    let j = if round % 3 != 2 { *rng.pick(&days) } else { rng.range(JDN_MIN, JDN_MAX) };
-    let s = if round % 4 == 3 { rng.range(0, 86399) } else { *rng.pick(&jsecs) };
-    let ms = s * 1000 + if round % 5 == 4 { rng.range(0, 999) } else { *rng.pick(&fracs) };
+  // the complete grid special day x boundary second x fraction (every day of October 1582 included), then seeded points
+  let mut grid: Vec<(i64, i64)> = Vec::new();
+  let mut gdays: Vec<i64> = days.clone();
+  for j in 2299150..=2299182 {
+    gdays.push(j);
+  }
+  gdays.sort();
+  gdays.dedup();
+  for j in gdays.iter() {
+    for s in jsecs.iter() {
+      for f in fracs.iter() {
+        grid.push((*j, s * 1000 + f));
+      }
+    }
+  }
+  let ngrid = grid.len();
+  for round in 0..(ngrid + 3000 * scale as usize) {
+    let (j, ms) = if round < ngrid {
+      grid[round]
+    } else {
+      let j = if round % 3 != 2 { *rng.pick(&days) } else { rng.range(JDN_MIN, JDN_MAX) };
+      let s = if round % 4 == 3 { rng.range(0, 86399) } else { *rng.pick(&jsecs) };
+      (j, s * 1000 + if round % 5 == 4 { rng.range(0, 999) } else { *rng.pick(&fracs) })
+    };
     let x = (j as f64 - 0.5) + (ms as f64) / 86_400_000.0;
     let t = catch(|| JulianDay::from_julian_day(x).get_solar_time());
     let (rj, rs) = t.as_ref().map(inst).unwrap_or((-1, -1));
